@@ -276,12 +276,31 @@ func bigText(spec string) string {
 	return b.String()[:n]
 }
 
+// RndText is n characters of a fixed, barely compressible character stream; RndText(n) is a prefix of
+// RndText(n+1), so a fragment's compressed size moves by about one byte per character.
+func RndText(n int) string {
+	const alpha = "ABCDEFGHIJKLMNOPQRSTUVWXYZabcdefghijklmnopqrstuvwxyz0123456789-_"
+	b := make([]byte, n)
+	x := uint64(0x9E3779B97F4A7C15)
+	for i := range b {
+		x ^= x << 13
+		x ^= x >> 7
+		x ^= x << 17
+		b[i] = alpha[x>>58]
+	}
+	return string(b)
+}
+
 func driverValue(v any) any {
 	switch x := v.(type) {
 	case string:
 		switch {
 		case strings.HasPrefix(x, "@@BIG:"):
 			return bigText(x)
+		case strings.HasPrefix(x, "@@RND:"):
+			var n int
+			fmt.Sscanf(x, "@@RND:%d", &n)
+			return RndText(n)
 		case strings.HasPrefix(x, "@@TIME:"):
 			var sec int64
 			fmt.Sscanf(x, "@@TIME:%d", &sec)
